@@ -1,6 +1,7 @@
 //! simcheck — driver for the checks that need no thread scheduler (engines E1, E2, E4).
 
 mod e1;
+mod e2;
 mod e4;
 mod props;
 
@@ -8,8 +9,12 @@ use sim_core::driver::{parse_options, run_check, Check};
 
 fn pick(id: &str) -> Option<Box<dyn Check>> {
     match id {
+        "C01" => Some(Box::new(e2::c01::C01)),
+        "C04" => Some(Box::new(e2::c04::C04)),
+        "C08" => Some(Box::new(e2::c08::C08)),
+        "C11" => Some(Box::new(e2::c11::C11)),
         "C05" => Some(Box::new(props::C05)),
-        "C06" => Some(Box::new(e1::checks::C06)),
+        "C06" => Some(Box::new(props::C06)),
         "C07" => Some(Box::new(e1::checks2::C07)),
         "C18" => Some(Box::new(e1::checks2::C18)),
         "C19" => Some(Box::new(e1::checks::C19)),
